@@ -1,0 +1,233 @@
+//! Verification hooks.
+//!
+//! This module only exists when the crate is built with `--cfg calloop_verif`. It gives a
+//! simulator, installed per thread with [`install`], control over every source of
+//! non-determinism calloop depends on: the clock, the blocking wait of the poller, the order
+//! of the events inside one poll batch and the failure of registration system calls. It also
+//! offers named trace points and read-only statistics.
+//!
+//! With no simulator installed every hook falls through to the real behaviour, so a
+//! `calloop_verif` build without a simulator behaves like the shipped crate.
+
+use std::cell::RefCell;
+use std::io;
+use std::rc::Rc;
+use std::time::{Duration, Instant};
+
+use polling::{Events, Poller};
+
+/// The registration system call a fault can be injected at.
+#[derive(Clone, Copy, Debug, PartialEq, Eq, PartialOrd, Ord, Hash)]
+pub enum FaultSite {
+    /// `Poll::register`
+    Register,
+    /// `Poll::reregister`
+    Reregister,
+    /// `Poll::unregister`
+    Unregister,
+}
+
+/// Named scheduling / trace points.
+#[derive(Clone, Copy, Debug, PartialEq, Eq, PartialOrd, Ord, Hash)]
+#[allow(missing_docs)]
+pub enum Site {
+    PingWriteBefore,
+    PingWriteAfter,
+    PingDrain,
+    PingFlagDrop,
+    NotifyBefore,
+    NotifyAfter,
+    ChanEnqueued,
+    ChanSyncBlocking,
+    ChanTryRecv,
+    ChanReping,
+    ExecEnqueue,
+    ExecEnqueued,
+    ExecFlagClear,
+    ExecDequeue,
+    ExecRewake,
+    ExecDrop,
+    ExecDropDrained,
+    RunCheckStop,
+    RunIterDone,
+    Stop,
+    BlockOnWake,
+    BlockOnWakeStored,
+    BlockOnSwap,
+}
+
+/// One event of a poll batch, as seen by the simulator.
+#[derive(Clone, Copy, Debug, PartialEq, Eq)]
+pub struct BatchEvent {
+    /// The raw key of the token the event carries
+    pub key: usize,
+    /// Readable readiness
+    pub readable: bool,
+    /// Writable readiness
+    pub writable: bool,
+}
+
+/// Read-only statistics about a loop.
+#[derive(Clone, Copy, Debug, PartialEq, Eq)]
+pub struct Stats {
+    /// Number of source slots ever allocated
+    pub slots: usize,
+    /// Number of slots currently holding a source
+    pub occupied_slots: usize,
+    /// Number of entries in the set of sources with additional lifecycle events
+    pub lifecycle_len: usize,
+    /// Number of distinct entries in that set
+    pub lifecycle_distinct: usize,
+    /// Number of entries in the timer heap
+    pub timer_heap_len: usize,
+    /// Number of queued idle callbacks
+    pub idles_len: usize,
+    /// Whether the loop-wide deferred post action is `Continue`
+    pub pending_action_is_continue: bool,
+}
+
+/// The interface a simulator implements. Every method has a default that means "behave as
+/// the shipped crate would".
+#[allow(unused_variables)]
+pub trait Sim {
+    /// The current time, or `None` for the real clock.
+    fn now(&self) -> Option<Instant> {
+        None
+    }
+    /// Replace the blocking wait. `None` means perform the real wait.
+    fn wait(
+        &self,
+        poller: &Poller,
+        events: &mut Events,
+        timeout: Option<Duration>,
+    ) -> Option<io::Result<usize>> {
+        None
+    }
+    /// Inspect / reorder a poll batch. The first `n_fd` entries are fd events (the kernel
+    /// promises no order for them), the rest are expired timers in expiry order.
+    fn batch(&self, events: &mut Vec<BatchEvent>, n_fd: usize) {}
+    /// Possibly fail a registration system call before it is made.
+    fn fault(&self, site: FaultSite, fd: i32) -> io::Result<()> {
+        Ok(())
+    }
+    /// A named point was reached.
+    fn point(&self, site: Site) {}
+    /// `process_events` for the event with this key is about to start.
+    fn event_begin(&self, key: usize) {}
+    /// Processing of that event (including its post action) is over.
+    fn event_end(&self, key: usize) {}
+}
+
+thread_local! {
+    static SIM: RefCell<Option<Rc<dyn Sim>>> = const { RefCell::new(None) };
+}
+
+/// Install (or, with `None`, remove) the simulator of the current thread. Returns the
+/// previous one.
+pub fn install(sim: Option<Rc<dyn Sim>>) -> Option<Rc<dyn Sim>> {
+    SIM.with(|s| std::mem::replace(&mut *s.borrow_mut(), sim))
+}
+
+fn current() -> Option<Rc<dyn Sim>> {
+    SIM.try_with(|s| s.borrow().clone()).ok().flatten()
+}
+
+/// Stand-in for `std::time::Instant` in the places calloop reads the clock.
+#[derive(Debug)]
+pub struct Clock;
+
+impl Clock {
+    /// The simulated time if a simulator is installed, the real time otherwise.
+    #[allow(clippy::new_ret_no_self)]
+    pub fn now() -> Instant {
+        current()
+            .and_then(|s| s.now())
+            .unwrap_or_else(Instant::now)
+    }
+}
+
+pub(crate) fn wait(
+    poller: &Poller,
+    events: &mut Events,
+    timeout: Option<Duration>,
+) -> io::Result<usize> {
+    if let Some(sim) = current() {
+        if let Some(ret) = sim.wait(poller, events, timeout) {
+            return ret;
+        }
+    }
+    poller.wait(events, timeout)
+}
+
+pub(crate) fn batch(events: &mut Vec<crate::sys::PollEvent>, n_fd: usize) {
+    if let Some(sim) = current() {
+        let mut evs: Vec<BatchEvent> = events
+            .iter()
+            .map(|e| BatchEvent {
+                key: e.token.inner.into(),
+                readable: e.readiness.readable,
+                writable: e.readiness.writable,
+            })
+            .collect();
+        sim.batch(&mut evs, n_fd);
+        events.clear();
+        events.extend(evs.into_iter().map(|e| crate::sys::PollEvent {
+            readiness: crate::Readiness {
+                readable: e.readable,
+                writable: e.writable,
+                error: false,
+            },
+            token: crate::Token {
+                inner: crate::token::TokenInner::from(e.key),
+            },
+        }));
+    }
+}
+
+pub(crate) fn fault(site: FaultSite, fd: i32) -> crate::Result<()> {
+    if let Some(sim) = current() {
+        sim.fault(site, fd)?;
+    }
+    Ok(())
+}
+
+/// Reach a named point.
+pub fn point(site: Site) {
+    if let Some(sim) = current() {
+        sim.point(site);
+    }
+}
+
+/// Marks the extent of the processing of one event, including early returns.
+pub(crate) struct EventScope(usize);
+
+impl EventScope {
+    pub(crate) fn new(key: usize) -> EventScope {
+        if let Some(sim) = current() {
+            sim.event_begin(key);
+        }
+        EventScope(key)
+    }
+}
+
+impl Drop for EventScope {
+    fn drop(&mut self) {
+        if let Some(sim) = current() {
+            sim.event_end(self.0);
+        }
+    }
+}
+
+impl crate::Token {
+    /// The raw key this token is handed to the poller as.
+    pub fn verif_key(&self) -> usize {
+        self.inner.into()
+    }
+}
+
+impl crate::RegistrationToken {
+    /// The raw key of this registration (sub-id 0).
+    pub fn verif_key(&self) -> usize {
+        self.verif_inner().into()
+    }
+}
